@@ -43,7 +43,7 @@ struct Gen {
         if (u < 0.70) E = (uint32_t)rng.range(1, 64);
         else if (u < 0.92) E = (uint32_t)rng.range(65, 300);
         else E = (uint32_t)rng.range(1024, 4096);
-        while ((uint64_t)n * E > (thorough ? 4000000u : 600000u) && E > 8) E /= 2;
+        while ((uint64_t)n * E > (thorough ? 4000000u : 400000u) && E > 4) E /= 2;
         (void)k;
         return E;
     }
@@ -123,6 +123,7 @@ struct Gen {
         } else if (fld == "E") {
             static const uint64_t es[] = {0, 0, 1, 65536, 1048576};
             f.E = (uint32_t)es[rng.below(5)];
+            if ((uint64_t)(f.k + f.r) * f.E > (8u << 20) && f.E > 1) f.E = 1;      // keep the block materialisable
             if ((f.codec == C_RS8 || f.codec == C_RS2M) && rng.chance(0.3)) { static const uint64_t big[] = {2147483648ULL, 4294967295ULL}; f.E = (uint32_t)big[rng.below(2)]; }
         } else if (fld == "m") {
             static const int ms[] = {0, 1, 3, 5, 7, 9, 16, 255, 65535};
@@ -135,6 +136,7 @@ struct Gen {
             static const uint64_t ss[] = {0, 0, 2147483647ULL, 2147483648ULL, 4294967295ULL, 3000000000ULL};
             f.pseed = (uint32_t)ss[rng.below(6)];
         }
+        if ((uint64_t)f.k + f.r > 4000 && f.E > 8 && fld != "E") f.E = 1 + (uint32_t)rng.below(8);
         cnt("oti_corruptions");
     }
 
@@ -145,6 +147,7 @@ struct Gen {
         for (uint32_t i = 0; i < k; i++) src[i] = i;
         for (uint32_t i = 0; i < f.r; i++) rep[i] = k + i;
         int mode = (int)rng.below(9);
+        if (is_big(f)) mode = 0;
         auto shuf = [&](std::vector<uint32_t> &v) { if (!v.empty()) rng.shuffle(v.data(), v.size()); };
         switch (mode) {
         case 0: all = src; all.insert(all.end(), rep.begin(), rep.end()); break;
@@ -159,9 +162,12 @@ struct Gen {
             size_t a = 0, b = 0; while (a < src.size() || b < rep.size()) { if (a < src.size()) all.push_back(src[a++]); if (b < rep.size() && rng.chance(0.6)) all.push_back(rep[b++]); else if (a >= src.size() && b < rep.size()) all.push_back(rep[b++]); } break; }
         }
         if (skip_last) { all.erase(std::remove(all.begin(), all.end(), n - 1), all.end()); cnt("sender_skipped_null_symbol"); }
-        if (all.size() > 30000) all.resize(30000);
+        if (all.size() > 30000 && !is_big(f)) all.resize(30000);
         return all;
     }
+
+    // large blocks are driven with light loss only: dense elimination is cubic in the number of unknowns (DESIGN C09 bounds)
+    static bool is_big(const Flow &f) { return (uint64_t)f.k + f.r > 3000; }
 
     struct Arrival { int64_t t; uint32_t esi; bool dup; };
 
@@ -174,6 +180,15 @@ struct Gen {
             loss = thr + (rng.unit() - 0.5) * 0.3;
         }
         loss = std::max(0.0, std::min(0.95, loss));
+        if (is_big(f)) {
+            std::vector<Arrival> outb;
+            size_t drops = rng.below(4);
+            std::vector<uint8_t> dropit(tx.size(), 0);
+            for (size_t d = 0; d < drops && !tx.empty(); d++) dropit[rng.below(tx.size())] = 1;
+            for (size_t i = 0; i < tx.size(); i++) { if (dropit[i]) { cnt("dropped"); continue; } outb.push_back({t0 + (int64_t)i * pace + 1000, tx[i], false}); }
+            cnt("delivered", (int64_t)outb.size()); cnt("big_block_flows");
+            return outb;
+        }
         bool bad = false; double p_gb = 0.05, p_bg = 0.25;     // Gilbert burst model ("partition and heal")
         int64_t base = 1000, jitter = (int64_t)(sw.reorder_on ? sw.jitter_mult * pace : 0);
         for (size_t i = 0; i < tx.size(); i++) {
@@ -239,6 +254,7 @@ struct Gen {
         if ((rs || codec == C_2D) && rng.chance(0.5)) rng.shuffle(order.data(), order.size());
         uint32_t nbuild = f.r;
         if (probe && f.r > 64) nbuild = 64;
+        if (is_big(f) && nbuild > 1500) nbuild = 1500;
         int64_t tb0 = t;
         for (uint32_t i = 0; i < nbuild; i++) {
             bool null_slot = rng.chance(sw.null_slot_rate);
@@ -257,6 +273,8 @@ struct Gen {
             else if (prof == "C03") mode = u < 0.55 ? "finish" : "batch";
             else mode = u < 0.34 ? "stream" : u < 0.72 ? "finish" : "batch";
         }
+        const bool big = is_big(f);
+        if (big && mode == "batch") mode = "finish";
         std::string cb = "none";
         if (prof == "C11") { double u = rng.unit(); cb = u < 0.4 ? "buf" : u < 0.7 ? "mix" : "null"; }
         else if (rng.chance(0.25)) { double u = rng.unit(); cb = u < 0.5 ? "buf" : u < 0.8 ? "mix" : "null"; }
@@ -281,7 +299,7 @@ struct Gen {
         // the application's timer: quiescence (200 simulated ms after the last packet) or a block deadline that may
         // fire while packets are still arriving
         int64_t t_fin = last + 200000;
-        if (!arr.empty() && rng.chance(0.25)) { t_fin = arr.front().t + (int64_t)rng.below((uint64_t)(last - arr.front().t + 1)); cnt("deadline_fired_mid_stream"); }
+        if (!arr.empty() && !big && rng.chance(0.25)) { t_fin = arr.front().t + (int64_t)rng.below((uint64_t)(last - arr.front().t + 1)); cnt("deadline_fired_mid_stream"); }
         if (mode == "batch") { put(t_fin, "SETAVAIL"); put(t_fin + 3, "FINISH", -1, "", (rng.next() & 0xffffff) + 1); }
         else if (mode == "finish") put(t_fin, "FINISH", -1, "", (rng.next() & 0xffffff) + 1);
         if (mode == "finish" && (prof == "C10" || rng.chance(0.1)) && rng.chance(0.5)) { /* a second timer is not protocol-conforming for LDPC: not generated */ }
@@ -298,7 +316,7 @@ struct Gen {
         }
         // receiver faults: abandon at an arbitrary event index, possibly followed by a restart
         bool abandoned = false; int64_t t_ab = 0; size_t cut = 0;
-        if (sw.abandon && rng.chance(prof == "C08" ? 0.6 : 0.3)) {
+        if (sw.abandon && !big && rng.chance(prof == "C08" ? 0.6 : 0.3)) {
             cut = 1 + rng.below(mine.size());
             t_ab = cut < mine.size() ? mine[cut].t : t_end;
             abandoned = cut < mine.size();
@@ -354,7 +372,7 @@ struct Gen {
         if (usable && materialisable(f)) tx = tx_schedule(f, skip_last);
         int nrx = (int)rng.range(1, prof == "C12" ? 2 : 3);
         if (prof == "C06") nrx = (int)rng.range(0, 1);
-        if (!f.oti.empty()) nrx = 1;
+        if (!f.oti.empty() || is_big(f)) nrx = std::min(nrx, 1);
         std::vector<Arrival> first_arr;
         for (int i = 0; i < nrx; i++) {
             std::vector<Arrival> arr = channel(f, tx, t_tx, pace, sw);
